@@ -370,11 +370,11 @@ def run_bounds(key):
                                     .covariance_eigenvalues)
                     lo, hi = -1e-7, b
                 else:
-                    k = -np.asarray(d.CBMMTrainer(max_concentration=b).fit(y, initialization=init, iterations=2)
+                    k = -np.asarray(d.CBMMTrainer(max_concentration=b).fit(y, initialization=init, iterations=3)
                                     .complex_bingham.covariance_eigenvalues)
                     lo, hi = -1e-7, b
             except Exception as e:  # noqa
-                if fam in ('bingham', 'cbmm'):
+                if fam in ('bingham', 'cbmm') and isinstance(e, (AssertionError, ValueError)) and name == 'uniform':
                     continue        # rank-deficient scatter guard of the Bingham solver (judged elsewhere)
                 return viol(f'{fam} with bounds {b} raised on {name} data: {e!r}')
             k = np.asarray(k, dtype=float)
@@ -448,7 +448,7 @@ def subchecks(tier, seed):
 
     def bound_cases():
         for fam in BOUND_FAMILIES:
-            for D in (2, 3):
+            for D in (2, 3) + ((4, 5) if fam in ('bingham', 'cbmm') else ()):
                 for seq in itertools.permutations(BOUNDS[fam], 2):
                     yield (fam, D, seq, seed)
                 for seq in itertools.permutations(BOUNDS[fam], 3):
